@@ -89,11 +89,33 @@ def extract(repo):
     ocls = next((n for n in obs.body if isinstance(n, ast.ClassDef) and n.name == "Observable"), None)
     chain["Observable._Notify"] = _need(_method(ocls, "_Notify"), ["[observer._Update(self, event) for observer in self.observers]"], "Observable._Notify")
     chain["_Simu._Update"] = _need(_method(base, "_Update"), ["self.Need_Update()", "clear_cached_computed_values(self)"], "_Simu._Update")
+    # every way a mesh object becomes the simulation's mesh subscribes the simulation to it
+    installers = {}
+    for f in base.body:
+        if not isinstance(f, ast.FunctionDef):
+            continue
+        if any(isinstance(n, ast.Assign) and any(ast.unparse(t) == "self.__mesh" for t in n.targets) for n in ast.walk(f)):
+            is_setter = any(ast.unparse(d).endswith(".setter") for d in f.decorator_list)
+            installers[f.name + (".setter" if is_setter else "")] = f
+    # `_Gather` (MPI: rank 0 swaps its partition for the gathered mesh) also installs a mesh; MPI runs are outside the model
+    if sorted(installers) != ["_Gather", "__Update_mesh", "mesh.setter"]:
+        raise Refuse(f"self.__mesh is assigned in {sorted(installers)}: the model knows the mesh setter, __Update_mesh and (MPI, not modelled) _Gather only")
+    inst = {"mesh.setter": _need(installers["mesh.setter"], ["self.__mesh = mesh", "mesh._Add_observer(self)"], "_Simu.mesh setter")}
+    upd = installers["__Update_mesh"]
+    branch = next((n for n in upd.body if isinstance(n, ast.If) and ast.unparse(n.test) == "isinstance(mesh, str)"), None)
+    if branch is None or branch.orelse:
+        raise Refuse("_Simu.__Update_mesh: the branch `if isinstance(mesh, str)` (mesh read back from the disk) not found")
+    body = [ast.unparse(st) for st in branch.body]
+    if body != ["mesh = self.__Load_mesh(mesh)", "mesh._Add_observer(self)"]:
+        raise Refuse(f"_Simu.__Update_mesh: a mesh read back from the disk is no longer [loaded, subscribed to]: {body}")
+    inst["__Update_mesh"] = body + _need(upd, ["mesh = self.__listMesh[index]", "self.__mesh = mesh"], "_Simu.__Update_mesh")
+    chain["installers"] = inst
     return table, chain
 
 
 def write(repo: str, outdir: str) -> dict:
     table, chain = extract(repo)
+    inst = chain.pop("installers")
     os.makedirs(outdir, exist_ok=True)
     q = lambda s: '"' + s.replace('"', "'").replace("\n", "\\n") + '"'  # noqa: E731
     rows = ",\n  ".join("(" + q(k) + ", [" + ", ".join(q(x) for x in v) + "])" for k, v in table.items())
@@ -103,7 +125,10 @@ def write(repo: str, outdir: str) -> dict:
            "/-- for every simulation class, the objects it registers itself with while it is constructed (`X._Add_observer(self)` in `_Simu.__init__` and in its own `__init__`) -/\n"
            f"def observersOf : List (String × List String) := [\n  {rows}]\n\n"
            "/-- the statements of the notification chain, matched against the source -/\n"
-           f"def notifyForms : List (String × List String) := [\n  {crow}]\n\nend EasyFEAVerif.Gen.C14\n")
+           f"def notifyForms : List (String × List String) := [\n  {crow}]\n\n"
+           "/-- every function of `_Simu` that installs a mesh object (`self.__mesh = ...`), with the statements that install it and subscribe to it -/\n"
+           "def meshInstallers : List (String × List String) := [\n  "
+           + ",\n  ".join("(" + q(k) + ", [" + ", ".join(q(x) for x in v) + "])" for k, v in inst.items()) + "]\n\nend EasyFEAVerif.Gen.C14\n")
     _write_if_changed(os.path.join(outdir, "Observers.lean"), txt)
     return dict(classes=list(table), registrations={k: v for k, v in table.items()})
 
